@@ -384,3 +384,18 @@ Fixpoint spec_go (open : option char) (cur : option str) (s : str) : list str :=
       end
   end.
 Definition spec_words (s : str) : list str := spec_go None None s.
+
+(* ---------- sessions on one CommandManager ---------- *)
+(* parse_partial is wrapped in functools.lru_cache; the model has no cache because the cached
+   value must behave as a pure function of the line (callers such as the console commander
+   must not mutate it).  A session is any interleaving of parses (render / tab completion)
+   and executes on one manager; every step is answered as if it were the first. *)
+Inductive step := SParse (line : str) | SExec (line : str).
+Inductive step_result := RParse (r : pp_result) | RExec (o : outcome).
+Definition run_step (keep_tabs : bool) (commands : str -> option signature) (st : step) : step_result :=
+  match st with
+  | SParse l => RParse (parse_partial keep_tabs l)
+  | SExec l => RExec (execute keep_tabs commands l)
+  end.
+Definition run_session (keep_tabs : bool) (commands : str -> option signature) (steps : list step)
+  : list step_result := map (run_step keep_tabs commands) steps.
